@@ -35,8 +35,6 @@ BUDGET = {'quick': 15, 'thorough': 150}
 K_QUOTED_COMMA = 'accept-quoted-comma-split'
 K_BACKSLASH = 'quoted-value-trailing-backslash-swallows-params'
 K_ACCEPTS_SHORTCUT = 'client-accepts-identical-string-shortcut'
-K_IOR_FAIL = 'handlers-ior-partial-failure-stale-cache'
-K_COPYCOPY = 'handlers-copycopy-shares-resolver'
 K_EMPTY_COPY = 'handlers-copy-of-empty-gets-defaults'
 
 # --------------------------------------------------------------------------------------------
@@ -585,8 +583,23 @@ class Fault(Exception):
         return 'Fault()'
 
 
-def faulty_argument(form, pairs, n):
-    """An update()/|= argument that delivers n good items and then fails."""
+class BaseFault(BaseException):
+    """An interruption that is not an Exception (like KeyboardInterrupt), of a class nobody knows about."""
+
+
+def fault_class(name):
+    """What cuts the operation short: an ordinary Exception, or a BaseException that is not one
+    (the caller survives it: a cancelled task that is retried, Ctrl-C caught by a REPL/worker loop)."""
+    import asyncio
+    return {'Fault': Fault, 'KeyboardInterrupt': KeyboardInterrupt, 'CancelledError': asyncio.CancelledError,
+            'SystemExit': SystemExit, 'GeneratorExit': GeneratorExit, 'BaseFault': BaseFault}[name]
+
+
+FAULT_NAMES = ['Fault', 'KeyboardInterrupt', 'CancelledError', 'SystemExit', 'GeneratorExit', 'BaseFault']
+
+
+def faulty_argument(form, pairs, n, Fault=Fault):
+    """An update()/|= argument that delivers n good items and then fails with Fault()."""
     if form == 'gen':
         def g():
             for p in pairs[:n]:
@@ -709,8 +722,6 @@ class Live:
 
     def __init__(self, obj, model, origin='new', source=None):
         self.obj, self.model, self.origin, self.source = obj, model, origin, source
-        self.stale_snapshots = []      # (model snapshot, finding key): what a resolver cache may still reflect
-                                       # after a |= that failed part-way (recorded defect)
         self.prev_expect = {}
         self.dead = False
 
@@ -754,16 +765,8 @@ class History:
         eff = default if (not ct or ct == '*/*') else ct
         if M.has_quoted_comma(eff) and tag_of(M.resolve_model(live.model, ct, default, naive=True)) in (got_tag, None):
             return K_QUOTED_COMMA
-        for snap, key in live.stale_snapshots:
-            if tag_of(M.resolve_model(snap, ct, default)) == got_tag:
-                return key
-        if live.origin == 'copycopy' and live.source is not None:
-            src = live.source          # copy.copy() shares the resolver closure, which is bound to the root object
-            while src.origin == 'copycopy' and src.source is not None:
-                src = src.source
-            for snap in [src.model] + [sn for sn, _ in src.stale_snapshots]:
-                if tag_of(M.resolve_model(snap, ct, default)) == got_tag:
-                    return K_COPYCOPY
+        # (the |=, failing |= and copy.copy() defects found earlier are repaired in falcon: a regression of any of
+        #  them is an ordinary violation, nothing is attributed to them any more)
         return None
 
     # ---- ops
@@ -813,8 +816,6 @@ class History:
             except KeyError:
                 want = ('KeyError', None)
 
-        clears = True      # does the op go through __setitem__/__delitem__ when it changes anything
-        before_items = [(k, id(v)) for k, v in model.items()]
         if kind == 'set':
             h = self.new_handler(op[3])
             both(lambda: obj.__setitem__(rk(op[2]), h), lambda: model.__setitem__(op[2], h))
@@ -859,10 +860,11 @@ class History:
             both(f, lambda: model.update(d) or True)     # a completed |= invalidates like any other mutation
         elif kind in ('update_fail', 'ior_fail'):
             # a mutation that fails after it may have changed part of the mapping; the caller handles the error.
-            # op = [kind, i, keys, fast, form, n]: the argument yields n good pairs, then fails.
+            # op = [kind, i, keys, fast, form, n(, exception class name)]: the argument yields n good pairs, then fails.
             pairs = [(k, self.new_handler(op[3])) for k in op[2]]
             n = min(op[5], len(pairs))
-            arg = faulty_argument(op[4], pairs, n)
+            fcls = fault_class(op[6] if len(op) > 6 else 'Fault')
+            arg = faulty_argument(op[4], pairs, n, fcls)
             before = dict(model)
             try:
                 if kind == 'update_fail':
@@ -871,10 +873,11 @@ class History:
                     o = obj
                     o |= arg
                 real = ('ok', None)
-            except Exception as ex:  # noqa
-                real = ('raised', type(ex).__name__ if op[4] == 'badpair' else repr(ex))
-            want = ('raised', real[1] if op[4] == 'badpair' else repr(Fault()))
+            except BaseException as ex:  # noqa  (only what the argument built above raises can arrive here)
+                real = ('raised', type(ex).__name__)
+            want = ('raised', real[1] if op[4] == 'badpair' else fcls.__name__)
             rec.count('op.fail.' + op[4])
+            rec.count('op.fail.exception' if issubclass(fcls, Exception) or op[4] == 'badpair' else 'op.fail.base_exception')
             # how much was applied before the failure is the implementation's business (item by item: the
             # first n; validate-first: none): any prefix is accepted and becomes the current mapping
             items = [(k, id(v)) for k, v in obj.items()]
@@ -886,11 +889,7 @@ class History:
                     model.update(cand)
                     rec.count('op.fail.applied_%s' % ('some' if k else 'none'))
                     break
-            if kind == 'ior_fail':
-                live.stale_snapshots.append((before, K_IOR_FAIL))
-                clears = False
         elif kind in ('copy', 'copycopy', 'or', 'ror'):
-            clears = False
             try:
                 if kind == 'copy':
                     nobj, nmodel = obj.copy(), dict(model)
@@ -910,9 +909,6 @@ class History:
                 real, want = ('exc', repr(ex)), ('ok', None)
         else:
             raise ValueError('unknown op %r' % (op,))
-        if clears and before_items != [(k, id(v)) for k, v in model.items()]:
-            # (classifier bookkeeping) a mutation that reached __setitem__/__delitem__ dropped the cache
-            live.stale_snapshots = []
         if real != want:
             rv = real if real[0] != 'ok' else ('ok', tag_of(real[1]) if isinstance(real[1], BaseHandler) else real[1])
             wv = want if want[0] != 'ok' else ('ok', tag_of(want[1]) if isinstance(want[1], BaseHandler) else want[1])
@@ -1123,6 +1119,10 @@ EX_OPS = [
     ['update_fail', -1, [K3[0], K3[2]], False, 'gen', 1], ['update_fail', -1, [K3[1], K3[0]], True, 'badpair', 1],
     ['update_fail', -1, [K3[0], K3[1]], False, 'mapping', 1],
     ['ior_fail', -1, [K3[0], K3[2]], False, 'gen', 1], ['ior_fail', -1, [K3[2], K3[1]], False, 'badpair', 1],
+    # ... cut short by something that is not an Exception
+    ['ior_fail', -1, [K3[0], K3[2]], False, 'gen', 1, 'KeyboardInterrupt'],
+    ['ior_fail', -1, [K3[1], K3[0]], True, 'mapping', 1, 'CancelledError'],
+    ['update_fail', -1, [K3[0], K3[1]], False, 'keys', 1, 'BaseFault'],
 ]
 ERRSER_ACCEPTS = ['application/json', 'text/plain', 'text/*;q=0.5, application/json;q=0.4', 'text/xml', 'image/png',
                   '*/*', 'text/plain;q=0, */*;q=0.1', 'application/xml;q=0.9, text/plain;q=0.9']
@@ -1136,7 +1136,8 @@ EX_CORE = [o for o in EX_OPS if o in (
     ['or', -1, [K3[2]], False], ['copycopy', -1], ['default', 'text/plain'], ['set', 0, K3[0], False],
     ['set', -1, BAD_KEY, False], ['set', -1, K3[0], False, 're'], ['del', -1, K3[1], 're'],
     ['update_fail', -1, [K3[0], K3[2]], False, 'gen', 1], ['update_fail', -1, [K3[1], K3[0]], True, 'badpair', 1],
-    ['ior_fail', -1, [K3[0], K3[2]], False, 'gen', 1])]
+    ['ior_fail', -1, [K3[0], K3[2]], False, 'gen', 1],
+    ['ior_fail', -1, [K3[0], K3[2]], False, 'gen', 1, 'KeyboardInterrupt'])]
 
 
 def exhaustive_histories(rec, world):
@@ -1182,6 +1183,20 @@ def exhaustive_errser_ties(rec, world):
                         [keys[0], keys[-1], None], public=True, errser_accept=TIE_ACCEPTS)
             h.run(tail)
             rec.case(('ties', rot, idx))
+
+
+def exhaustive_odd_keys(rec, world):
+    """Every unusual key (not a type/subtype pair, outside the grammar, empty, blank) registered next to ordinary
+    ones, replaced and removed again - deterministic cover of the 'bad-key' and 'undecided' resolution classes."""
+    for idx, key in enumerate(R_BAD_KEYS):
+        if idx % rec.nshards != rec.shard:
+            continue
+        for tail in ([['set', -1, K3[1], True], ['set', -1, key, False], ['del', -1, key]],
+                     [['copy', -1], ['update', -1, [key, K3[2]], False, 'pairs'], ['pop', -1, key, False]]):
+            h = History(rec, world, [[K3[0], False], [key, True]], 'application/json', EX_PROBES + [key, 'text/plain;a=1'],
+                        public=True, errser_accept=ERRSER_ACCEPTS[idx % 4:idx % 4 + 3])
+            h.run(tail)
+            rec.case(('oddkey', key, len(tail[0])))
 
 
 R_KEYS = ['application/json', 'application/json; charset=utf-8', 'text/plain', 'text/*', 'text/html',
@@ -1235,7 +1250,8 @@ def gen_history(rng):
         elif r < 0.92:
             ks = rng.sample(keys, rng.choice([1, 2, 3]))
             ops.append([rng.choice(['update_fail', 'update_fail', 'ior_fail']), t, ks, fast,
-                        rng.choice(['gen', 'badpair', 'mapping', 'keys']), rng.randint(0, len(ks))])
+                        rng.choice(['gen', 'badpair', 'mapping', 'keys']), rng.randint(0, len(ks)),
+                        rng.choice(FAULT_NAMES)])
         else:
             ops.append(['default', rng.choice(R_DEFAULTS + keys[:1])])
     for op in ops:
@@ -1269,7 +1285,7 @@ def run(rec):
     rec.rule = ('A: Accept headers = all 1..3-tuples over %d media-range atoms (11 ranges x q set) x 10 media types, '
                 'plus grammar-driven random headers (params, quoted params, q forms, OWS, duplicates, empty/invalid '
                 'members); non-trivial = at least two ranges match the media type (or the input is not grammar-valid); '
-                'distinct by (header, candidates).  B: all programs of depth 2 over %d mapping operations (thorough: also depth 3 over a 21-op core) '
+                'distinct by (header, candidates).  B: all programs of depth 2 over %d mapping operations (thorough: also depth 3 over a core of them) '
                 '(exhaustive; incl. a key that is not a type/subtype pair and resolutions issued from inside a mutating operation via the __hash__ of a key) plus random programs up to 20 ops over 12+7 keys; resolutions after every op for all live '
                 'mappings; non-trivial = at least one resolution whose designated handler changed; distinct by program'
                 % (len(R_BASE) * len(Q_SET[rec.tier]), len(EX_OPS)))
@@ -1286,6 +1302,7 @@ def run(rec):
     exhaustive_negotiation(rec)
     exhaustive_histories(rec, world)
     exhaustive_errser_ties(rec, world)
+    exhaustive_odd_keys(rec, world)
     rec.exhaustive = True
     if rec.shard == 0:
         rec.note('exhaustive: headers of <=3 ranges over %d atoms; mapping programs of depth 2 over %d ops%s'
@@ -1324,7 +1341,7 @@ def run(rec):
                     ('errser.tie_among_registered', 20), ('cls.special_candidate', 100), ('why.blank-round-slash', 50),
                     ('mon.parse_header', 500), ('mon.parse_header_owned', 500), ('ph.no_options', 100),
                     ('ph.with_options', 100),
-                    ('op.update_fail', 20), ('op.ior_fail', 10), ('op.fail.applied_some', 20), ('chg.update_fail', 10),
+                    ('op.update_fail', 20), ('op.ior_fail', 10), ('op.fail.applied_some', 20), ('op.fail.base_exception', 20), ('op.fail.exception', 20), ('chg.update_fail', 10),
                     ('res.cls.bad-key', 200), ('res.cls.undecided', 5), ('res.reentrant', 500),
                     ('mon.mapping_state', 500), ('mon.errser', 100), ('errser.handler', 20), ('errser.builtin', 20),
                     ('errser.none_acceptable', 5)]:
